@@ -14,6 +14,7 @@ from .common import Result
 CFG = '''CONSTANTS
   MaxLen = {n}
   Depth = {d}
+  WithShuffle = {shuffle}
 SPECIFICATION Spec
 INVARIANT Emit
 CHECK_DEADLOCK FALSE
@@ -148,7 +149,7 @@ def run(prop, tier):
         info = []
         for n, d, budget in TIERS[tier]:
             wd = tlc.prepare()
-            r = tlc.run('Demand.tla', 'MC.cfg', workdir=wd, cfg_text=CFG.format(n=n, d=d), timeout=1800)
+            r = tlc.run('Demand.tla', 'MC.cfg', workdir=wd, cfg_text=CFG.format(n=n, d=d, shuffle='FALSE'), timeout=1800)
             if r['rc'] != 0 or r['errors']:
                 raise tlc.TlcError('Demand.tla: ' + '\n'.join(r['errors'][:20]))
             res.add_tlc(r['stats'])
